@@ -158,6 +158,7 @@ func recacheAggregatorContext(ctx sdk.Context, agc *aggregator.AggregatorContext
 		}
 
 		agc.PrepareRoundEndBlock(uint64(to - 1))
+		agc.CloseFinalizedRounds(func(tokenID uint64) uint64 { return k.GetNextRoundID(ctx, tokenID) })
 	}
 
 	var pRet cache.ItemP
